@@ -60,6 +60,10 @@ func runSmall(c *core.Ctx) []core.Obligation {
 	smallBitsetModulus(c, b)
 	smallRewriteOwnsOutput(c, b)
 	smallMapKeySortFollowsEncoder(c, b)
+	smallVarlenCount(c, b)
+	smallNilKeyEmptyString(c, b)
+	smallEmptyInterface(c, b)
+	smallNilScalarHasNoSize(c, b)
 	smallStringOptionNull(c, b)
 	smallStringOptionMarshaler(c, b)
 	return b.out
@@ -978,6 +982,221 @@ func smallRawVarintByte(c *core.Ctx, b *ob) {
 	}
 	if n == 0 {
 		b.addP(props, core.Discharged, "raw-varint-byte:none", "proto", "no integer is written as a raw byte outside encodeVarint: every length and tag goes through the varint encoder")
+	}
+}
+
+// S38 — proto's scalar codecs receive p == nil for a nil pointer field (the pointer codec
+// dereferences the field and adds wantzero for the pointee). A nil pointer is an absent field:
+// its size is 0 and nothing is written, whatever the flags. A size function that answers 1 for
+// nil under wantzero makes a nil *bool come back as a pointer to false.
+func smallNilScalarHasNoSize(c *core.Ctx, b *ob) {
+	props := []string{"C03", "C12"}
+	n := 0
+	fns := c.RepoFunctions()
+	sort.Slice(fns, func(i, j int) bool { return shortName(fns[i]) < shortName(fns[j]) })
+	for _, fn := range fns {
+		name := shortName(fn)
+		if fn.Blocks == nil || !strings.HasPrefix(name, "proto.sizeOf") || len(fn.Params) != 2 || fn.Params[0].Type().String() != "unsafe.Pointer" {
+			continue
+		}
+		if fn.Signature.Results().Len() != 1 {
+			continue
+		}
+		pp := fn.Params[0]
+		n++
+		key := "nil-scalar-has-no-size:" + name
+		bad := ""
+		for _, r := range returnsOf(fn) {
+			if k, isK := constInt(r.Results[0]); isK && k == 0 {
+				continue
+			}
+			guarded := false
+			for _, a := range trueAtoms(r.Block(), 0) {
+				if bo, ok := a.(*ssa.BinOp); ok && bo.Op == token.NEQ && ((bo.X == ssa.Value(pp) && isNilConst(bo.Y)) || (bo.Y == ssa.Value(pp) && isNilConst(bo.X))) {
+					guarded = true
+				}
+			}
+			for _, e := range dominatingEdges(r.Block()) {
+				if bo, ok := e.ifi.Cond.(*ssa.BinOp); ok && ((bo.X == ssa.Value(pp) && isNilConst(bo.Y)) || (bo.Y == ssa.Value(pp) && isNilConst(bo.X))) {
+					if (bo.Op == token.NEQ && e.succ == 0) || (bo.Op == token.EQL && e.succ == 1) {
+						guarded = true
+					}
+				}
+			}
+			if !guarded {
+				bad = c.InstrPos(r)
+			}
+		}
+		if bad != "" {
+			b.addP(props, core.Violation, key, bad, name+" can return a non-zero size when p is nil (under wantzero): a nil pointer field is then written as an explicit zero value and decodes to a non-nil pointer (struct{B *bool}{} round-trips to B = &false)")
+		} else {
+			b.addP(props, core.Discharged, key, c.FuncPos(fn), "a nil value has size 0 whatever the flags")
+		}
+	}
+	if n == 0 {
+		b.addP(props, core.Undecided, "nil-scalar-has-no-size", "-", "no proto.sizeOf* function found")
+	}
+}
+
+// S37 — omitempty on an interface-typed field: encoding/json omits it when the interface *is* nil
+// (isEmptyValue: v.IsNil()). An interface holding a typed nil pointer (or a nil map) is not nil
+// and is written as null. An interface is nil exactly when its first word (type or itab) is nil;
+// the data word is also nil for typed nils. The emptiness test must read the first word.
+func smallEmptyInterface(c *core.Ctx, b *ob) {
+	props := []string{"C01"}
+	key := "omitempty:interface-nil-by-type-word"
+	fn := c.Lookup("json.emptyFuncOf")
+	if fn == nil {
+		b.addP(props, core.Undecided, key, "-", "json.emptyFuncOf not found")
+		return
+	}
+	n, bad := 0, ""
+	for _, anon := range fn.AnonFuncs {
+		for _, blk := range anon.Blocks {
+			for _, in := range blk.Instrs {
+				fa, ok := in.(*ssa.FieldAddr)
+				if !ok {
+					continue
+				}
+				id := fieldAddrID(fa)
+				if !strings.HasPrefix(id, "json.iface.") {
+					continue
+				}
+				n++
+				if fa.Field != 0 {
+					bad = c.InstrPos(fa)
+				}
+			}
+		}
+	}
+	switch {
+	case n == 0:
+		b.addP(props, core.Undecided, key, c.FuncPos(fn), "no emptiness test reading an interface header found in emptyFuncOf")
+	case bad != "":
+		b.addP(props, core.Violation, key, bad, "the omitempty test of an interface-typed field reads the data word of the interface: it is nil for an interface holding a typed nil pointer or a nil map, so such a field is omitted where encoding/json (which tests whether the interface itself is nil) writes null")
+	default:
+		b.addP(props, core.Discharged, key, c.FuncPos(fn), "an interface is empty when its type word is nil")
+	}
+}
+
+// S36 — object keys are strings. encoding/json writes a nil pointer key whose type implements
+// TextMarshaler as "" (resolveKeyName); the TextMarshaler *value* encoder writes a nil pointer as
+// the bare token null, which as a key is not JSON at all ({null:1}). The key path of
+// constructMapCodec must therefore pass through an adapter that writes the empty string for nil.
+func smallNilKeyEmptyString(c *core.Ctx, b *ob) {
+	props := []string{"C01"}
+	key := "mapkeys:nil-pointer-key-is-empty-string"
+	fn := c.Lookup("json.constructMapCodec")
+	if fn == nil {
+		b.addP(props, core.Undecided, key, "-", "json.constructMapCodec not found")
+		return
+	}
+	usesText := false
+	adapter := false
+	for _, ci := range callsIn(fn) {
+		f := staticCallee(ci.Common())
+		if f == nil {
+			continue
+		}
+		if f.Name() == "constructTextMarshalerEncodeFunc" {
+			usesText = true
+		}
+		// an adapter: a constructor whose closure appends the constant "" under a nil test
+		for _, anon := range f.AnonFuncs {
+			for _, blk := range anon.Blocks {
+				for _, in := range blk.Instrs {
+					call, ok := in.(*ssa.Call)
+					if !ok {
+						continue
+					}
+					if bi, isB := call.Call.Value.(*ssa.Builtin); !isB || bi.Name() != "append" || len(call.Call.Args) != 2 {
+						continue
+					}
+					k, isK := call.Call.Args[1].(*ssa.Const)
+					if !isK || k.Value == nil || k.Value.Kind() != constant.String || constant.StringVal(k.Value) != `""` {
+						continue
+					}
+					for _, e := range dominatingEdges(blk) {
+						if nilTestEdge(e) {
+							adapter = true
+						}
+					}
+				}
+			}
+		}
+	}
+	switch {
+	case !usesText:
+		b.addP(props, core.Info, key, c.FuncPos(fn), "map keys are not written through the TextMarshaler encoder")
+	case !adapter:
+		b.addP(props, core.Violation, key, c.FuncPos(fn), "constructMapCodec writes TextMarshaler keys with the encoder used for values, which writes a nil pointer as the bare token null: map[*K]V{nil: 1} is encoded as {null:1}, which is not JSON (encoding/json writes {\"\":1})")
+	default:
+		b.addP(props, core.Discharged, key, c.FuncPos(fn), "a nil pointer key is written as the empty string")
+	}
+}
+
+// S35 — decodeVarlen returns the payload *and* the number of bytes it consumed, prefix and payload
+// together. A decode function built on it reports exactly that number: adding the payload length
+// again makes the struct decoder skip the bytes that follow the field (the next fields are lost or
+// misread as soon as the message-typed field is not the last one).
+func smallVarlenCount(c *core.Ctx, b *ob) {
+	props := []string{"C03", "C07", "C12"}
+	n := 0
+	fns := c.RepoFunctions()
+	sort.Slice(fns, func(i, j int) bool { return shortName(fns[i]) < shortName(fns[j]) })
+	for _, fn := range fns {
+		name := shortName(fn)
+		if fn.Blocks == nil || !strings.HasPrefix(name, "proto.") {
+			continue
+		}
+		res := fn.Signature.Results()
+		if res.Len() != 2 || res.At(0).Type().String() != "int" || res.At(1).Type().String() != "error" {
+			continue
+		}
+		for _, ci := range callsIn(fn) {
+			f := staticCallee(ci.Common())
+			call, isCall := ci.(*ssa.Call)
+			if f == nil || f.Name() != "decodeVarlen" || !isCall {
+				continue
+			}
+			var cnt ssa.Value
+			for _, ref := range *call.Referrers() {
+				if ex, ok := ref.(*ssa.Extract); ok && ex.Index == 1 {
+					cnt = ex
+				}
+			}
+			if cnt == nil {
+				continue
+			}
+			n++
+			key := "varlen:count-reported-once:" + closureIndex.ReplaceAllString(name, "")
+			bad := ""
+			for _, r := range returnsOf(fn) {
+				if len(r.Results) != 2 {
+					continue
+				}
+				if !dependsOn(r.Results[0], func(x ssa.Value) bool { return x == cnt }) {
+					continue
+				}
+				if bo, isB := r.Results[0].(*ssa.BinOp); isB && bo.Op == token.ADD {
+					other := bo.Y
+					if bo.Y == cnt {
+						other = bo.X
+					}
+					if _, isLen := lenArg(other); isLen {
+						bad = c.InstrPos(r)
+					}
+				}
+			}
+			if bad != "" {
+				b.addP(props, core.Violation, key, bad, name+" reports the count returned by decodeVarlen (length prefix plus payload) plus the payload length once more: the enclosing struct decoder then resumes that many bytes too far, so every field that follows a Message or custom-typed field is lost or misread (struct{Raw proto.RawMessage; A int} decodes A as 0)")
+			} else {
+				b.addP(props, core.Discharged, key, c.InstrPos(call), "the consumed count is the one decodeVarlen returned")
+			}
+		}
+	}
+	if n == 0 {
+		b.addP(props, core.Undecided, "varlen:count-reported-once", "-", "no caller of decodeVarlen found")
 	}
 }
 
